@@ -31,14 +31,20 @@ class Ctx:
             # E9: dissolve helpers that are not part of the pinned tree into their callers (sa/normalize.py)
             from .normalize import normalize_program, recover_renames
             from .types import World
+            from .normalize import recover_moves
             rtrees, renames = recover_renames(self.prog)
             if rtrees is not None:
                 self.prog = Program(self.root, wide=(tier == "thorough"), trees=rtrees)
+            moved = recover_moves(self.prog, set(renames.values()))
+            if moved:
+                self.prog = Program(self.root, wide=(tier == "thorough"), trees=rtrees, moved=moved)
             trees, self.normalisation = normalize_program(self.prog, World(self.prog))
             if self.normalisation.get("dissolved"):
-                self.prog = Program(self.root, wide=(tier == "thorough"), trees=trees)
+                self.prog = Program(self.root, wide=(tier == "thorough"), trees=trees, moved=moved)
             if renames:
                 self.normalisation["renames_recovered"] = renames
+            if moved:
+                self.normalisation["moves_recovered"] = {f"{k[0]}.{k[1]}": v["q"] for k, v in moved.items()}
         self._world = None
         self._hier = None
         self._tables = None
